@@ -132,6 +132,13 @@ def c07b(F, R):
             R.bad(f"arm|{v}|conditional", f"arm {v} reports only on some paths (the push is nested under a condition, or a `continue`/`return` comes before it): whenever the other path is taken the text this error stood for is dropped without a word - the error may be all that is left of a half-parsed statement", loc(escapes[0]) if escapes else loc(arm))
             continue
         if NODES in pushes:
+            # an arm that carries several nodes pushes every one of them
+            binds_ = [b_["name"] for b_ in walk(arm["pat"]) if b_.get("k") == "PBinding"]
+            pushed_ = {x_.get("res") for n_ in walk(arm["body"], pats=False) if n_.get("k") == "MethodCall" and n_["name"] == "push" and ekey(n_["recv"]) == NODES for x_ in walk(n_["args"][0], pats=False) if x_.get("k") == "Path"}
+            missing_ = [b_ for b_ in binds_ if b_ not in pushed_]
+            if len(binds_) > 1 and missing_:
+                R.bad(f"arm|{v}|partial", f"arm {v} carries the nodes {binds_} but pushes only {[b_ for b_ in binds_ if b_ in pushed_]}: the second half of a two-instruction expansion (`lw rd, label` = la + lw) is dropped", loc(arm))
+                continue
             R.ok(f"arm|{v}", detail=f"{v}: pushes node(s)")
         elif ERRS in pushes and recovers:
             R.ok(f"arm|{v}", detail=f"{v}: pushes a parse error and skips the rest of the line")
@@ -633,7 +640,10 @@ def _c15c_walk_details(F, R, f, name, guard, parent_p):
                             if x.get("k") == "Path" and x.get("res") in cnt:
                                 cnt[x["res"]].add(nm)
             outer_a, outer_b = norms(n["args"][0]), norms(n["args"][1])
-            if cnt[pa] | outer_a == cnt[pb] | outer_b:
+            wrong_ops = [b_ for b_ in walk(cl["body"], pats=False) if (b_.get("k") == "Binary" and b_["op"] == "Ne") or (b_.get("k") == "Unary" and b_["op"] == "Not") or (b_.get("k") == "MethodCall" and b_["name"] == "ne")]
+            if wrong_ops:
+                R.bad(f"{name}|comparison", "the path comparator answers with an inequality: 'same file' is true for different files and false for the file itself, so a file that includes itself is followed and every other nested include is refused as a cycle", loc(wrong_ops[0]))
+            elif cnt[pa] | outer_a == cnt[pb] | outer_b:
                 R.ok(f"{name}|comparison", detail=f"the comparator treats both paths alike ({sorted(cnt[pa] | outer_a) or 'as written'})", where=loc(cl))
             else:
                 R.bad(f"{name}|comparison", f"the path comparator normalises its arguments differently ({sorted(cnt[pa] | outer_a)} vs {sorted(cnt[pb] | outer_b)}): two spellings of one file never compare equal", loc(cl))
@@ -1619,6 +1629,90 @@ def c07p(F, R):
         R.bad("condition", f"the recovery loop leaves when the token is{'' if b else ' not'} something other than the newline (newline -> {a}, other -> {b}): the rest of a malformed line is not skipped but parsed as new statements, or the skip runs on into the following lines", loc(ifs[0]))
 
 
+@rule("C18", "C18.l.other-file-diagnostics-are-counted", floor=3)
+@rule("C15", "C15.g.other-file-diagnostics-are-counted", floor=3)
+def c15g(F, R):
+    """a diagnostic that is not shown because it lies in another file is counted, and the count is announced: the counter starts at 0, is incremented by 1 exactly where the diagnostic is skipped, and the notice is printed when it is greater than 0"""
+    dp = [q for q in F.fns if q.endswith("PrettyPrint as rva::printer::ErrorDisplay>::display_errors")]
+    if not dp:
+        raise Anchor("PrettyPrint::display_errors not found")
+    g = F.fn(dp[0])
+    body = g["hir"]["value"]
+    skip = [n for n in walk(body, pats=False) if n.get("k") == "If" and any(y.get("k") == "Continue" for y in walk(n["then"], pats=False)) and any(x.get("k") == "Field" and x["name"] == "all_files" for x in walk(n["cond"], pats=False))]
+    if len(skip) != 1:
+        R.bad("shape", "UNEXTRACTABLE: the skip of other-file diagnostics was not found", g["sp"])
+        return
+    incs = [a_ for a_ in walk(skip[0]["then"], pats=False) if a_.get("k") == "AssignOp" and a_["op"] == "AddAssign" and lit_value(a_["r"]) == 1]
+    if len(incs) != 1:
+        R.bad("increment", "the branch that skips a diagnostic of another file does not count it (`counter += 1`)", loc(skip[0]))
+        return
+    C = ekey(incs[0]["l"])
+    R.ok("increment", detail=f"`{C} += 1` where the diagnostic is skipped", where=loc(incs[0]))
+    init = [st for st in walk(body, pats=False) if st.get("k") == "Let" and st["pat"].get("k") == "PBinding" and st["pat"]["name"] == C]
+    if init and lit_value(init[0].get("init") or {}) == 0:
+        R.ok("starts-at-zero", detail=f"`{C}` starts at 0", where=loc(init[0]))
+    else:
+        R.bad("starts-at-zero", f"the counter `{C}` of diagnostics in other files does not start at 0", loc(init[0]) if init else g["sp"])
+    notes = [n for n in walk(body, pats=False) if n.get("k") == "If" and n is not skip[0] and any(x.get("k") == "Path" and x.get("res") == C for x in walk(n["cond"], pats=False)) and any(c.get("k") == "Call" and short(callee_of(c) or "") == "_print" for c in walk(n["then"], pats=False))]
+    okn = False
+    for n in notes:
+        c = peel(n["cond"])
+        while c.get("k") in ("DropTemps", "Use"):
+            c = peel(c["e"])
+        if c.get("k") == "Binary" and ((c["op"] == "Gt" and lit_value(c["b"]) == 0) or (c["op"] == "Ge" and lit_value(c["b"]) == 1) or (c["op"] == "Ne" and lit_value(c["b"]) == 0)) and ekey(c["a"]) == C:
+            okn = True
+    if okn:
+        R.ok("announced", detail=f"the notice is printed when `{C}` > 0", where=loc(notes[0]))
+    else:
+        R.bad("announced", f"the count of diagnostics in other files is not announced exactly when it is positive: a single hidden diagnostic (or all of them) goes unmentioned", loc(notes[0]) if notes else g["sp"])
+
+
+@rule("C19", "C19.f.the-dump-is-printed", floor=2)
+@rule("C18", "C18.m.every-channel-is-written", floor=4)
+def c18m(F, R):
+    """in the CLI every output the user asks for is produced: each printer that is constructed has `display_errors` called on it, and the text of the YAML / debug dump of the graph is handed to `println!`"""
+    if "rva::main" not in F.fns:
+        raise Anchor("rva::main not found")
+    g = F.fns["rva::main"]
+    body = g["hir"]["value"]
+    # printers
+    for st in walk(body, pats=False):
+        if st.get("k") == "Let" and st["pat"].get("k") == "PBinding" and st.get("init") is not None:
+            ctor = [c for c in walk(st["init"], pats=False) if c.get("k") == "Call" and re.search(r"printer::(JSONPrint|PrettyPrint)::new$", callee_of(c) or "")]
+            if not ctor:
+                continue
+            nm, lid = st["pat"]["name"], st["pat"].get("lid")
+            used = [m for m in walk(body, pats=False) if m.get("k") == "MethodCall" and m["name"] == "display_errors" and peel(m["recv"]).get("res") == nm and (lid is None or peel(m["recv"]).get("lid") in (None, lid))]
+            which = short((callee_of(ctor[0]) or "").rsplit("::", 1)[0])
+            if used:
+                R.ok(f"printer|{which}", detail="constructed and asked to display", where=loc(st))
+            else:
+                R.bad(f"printer|{which}", f"a {which} is constructed in `main` but `display_errors` is never called on it: that output mode prints nothing", loc(st))
+    # dumps
+    prints = [c for c in walk(body, pats=False) if c.get("k") == "Call" and short(callee_of(c) or "") == "_print"]
+    for what, test in (("yaml", lambda c: c.get("k") == "Call" and (callee_of(c) or "").startswith("serde_yaml") and short(callee_of(c)) == "to_string"),):
+        sites = [c for c in walk(body, pats=False) if test(c)]
+        for c in sites:
+            inside = any(any(y is c for y in walk(p_, pats=False)) for p_ in prints)
+            if inside:
+                R.ok(f"dump|{what}", detail="serialized and printed", where=loc(c))
+            else:
+                R.bad(f"dump|{what}", f"the {what} dump of the graph is serialized but not printed", loc(c))
+    ym = [st for st in walk(body, pats=False) if st.get("k") == "If" and any(x.get("k") == "Field" and x["name"] == "yaml" for x in walk(st["cond"], pats=False))]
+    if not ym:
+        R.bad("dump|yaml|option", "`--yaml` is no longer looked at in `main`", g["sp"])
+    elif not any(any(y is p_ for y in walk(d_["then"], pats=False)) and any(c.get("k") == "Call" and (callee_of(c) or "").startswith("serde_yaml") for c in walk(p_, pats=False)) for d_ in ym for p_ in prints):
+        R.bad("dump|yaml|printed", "under `--yaml` nothing serialized by serde_yaml is printed: the dump the property is about does not appear", loc(ym[0]))
+    else:
+        R.ok("dump|yaml|printed", detail="--yaml prints serde_yaml::to_string(&wrapped)", where=loc(ym[0]))
+    dbg = [st for st in walk(body, pats=False) if st.get("k") == "If" and any(x.get("k") == "Field" and x["name"] == "debug" for x in walk(st["cond"], pats=False))]
+    if dbg:
+        if any(any(y is p_ for y in walk(d_["then"], pats=False)) for d_ in dbg for p_ in prints):
+            R.ok("dump|debug", detail="--debug prints the graph", where=loc(dbg[0]))
+        else:
+            R.bad("dump|debug", "`--debug` no longer prints the graph", loc(dbg[0]))
+
+
 @rule("C18", "C18.f.excerpt-gutter-matches-printed-number", floor=2)
 def c18f(F, R):
     """in the pretty excerpt the blank gutter of the marker line is as wide as the line-number gutter above it: its width is computed from the very value that is printed as the line number (same binding) plus the literal characters printed before the number; otherwise the marker slides off the reported columns on lines 10, 100, ..."""
@@ -1925,7 +2019,18 @@ def c07n(F, R):
                     R.ok(f"loop#{n}|branch#{i}", detail="absorbs a token only if it is a number", where=loc(x))
                 else:
                     R.bad(f"loop#{n}|branch#{i}|{'+'.join(kinds) or 'other'}", f"a list that continues over newlines absorbs a token under `{ekey(c)[:70]}` ({kinds or 'no kind test'}): a following line that consists of such tokens vanishes into the list - no node of its own, no parse error", loc(x))
+            last = x
             x = x.get("else")
+        # the loop looks ahead without consuming: the branch that takes nothing must leave it
+        tail = nl[0]
+        while tail.get("else") is not None and peel(tail["else"]).get("k") in ("If",) or (tail.get("else") is not None and peel(tail["else"]).get("k") == "Block" and not peel(tail["else"]).get("stmts") and peel(peel(tail["else"]).get("expr") or {}).get("k") == "If"):
+            t_ = peel(tail["else"])
+            tail = t_ if t_.get("k") == "If" else peel(t_["expr"])
+        fin = tail.get("else")
+        if fin is None or not any(y.get("k") in ("Break", "Ret") for y in walk(fin, pats=False)):
+            R.bad(f"loop#{n}|final-else", "the value-list loop peeks at the next token and, when it is neither a line end nor a number, does not leave: nothing is consumed and the loop spins for ever on that token", loc(tail))
+        else:
+            R.ok(f"loop#{n}|final-else", detail="a token that is not taken ends the list", where=loc(fin))
     if n == 0:
         R.bad("shape", "UNEXTRACTABLE: no decoder loop that steps over newline tokens (the data value list) found", f["sp"])
 
